@@ -762,6 +762,72 @@ def z4_geneinfo(prog, ctx):
     ctx.extra["geneinfo_serialised_fields"] = sorted(serialised)
 
 
+def z5_reuse(prog, ctx):
+    """A run restarted from saved assignments skips the collection stage: whatever that stage leaves in the driver object for the later
+    stages must be rebuilt on the reuse branch (or unconditionally afterwards) from the saved files."""
+    from ..engine import carried
+    DSPM = "src/dataset_processor.py"
+    cls = prog.cls(DSPM, "DatasetProcessor")
+    ps = prog.func(DSPM, "DatasetProcessor.process_sample")
+    lin = carried.Linearizer(prog, cls)
+    n = 0
+    for node in walk_no_nested(ps):
+        if not (isinstance(node, ast.If) and "read_assignments" in src(node.test) and node.orelse):
+            continue
+        reuse, fresh = (node.body, node.orelse) if not (isinstance(node.test, ast.UnaryOp) and isinstance(node.test.op, ast.Not)) \
+            else (node.orelse, node.body)
+        stages = [c for s_ in fresh for c in ast.walk(s_) if isinstance(c, ast.Call) and (call_name(c) or "").startswith("self.")
+                  and call_name(c)[5:] in lin.methods]
+        if not stages:
+            continue
+        n += 1
+        written = {}
+        for c in stages:
+            for loc, kind, uncond, fn, st in lin.run(call_name(c)[5:]):
+                if kind in ("write", "rmw") and not loc.startswith("self.args."):
+                    written.setdefault(loc, st)
+        end = max(getattr(x, "end_lineno", x.lineno) for x in ast.walk(node) if hasattr(x, "lineno"))
+        later_reads, restored_after = set(), set()
+        for loc, kind, uncond, fn, st in lin.run("process_sample"):
+            in_ps_after = fn is ps and st.lineno > end
+            if not in_ps_after and not (fn is not ps and _called_after(ps, fn, end, lin)):
+                continue
+            if kind == "write" and uncond and fn is ps and loc not in later_reads:
+                restored_after.add(loc)
+            if kind in ("read", "rmw"):
+                later_reads.add(loc)
+        restored_here = set()
+        for s_ in reuse:
+            for a in ast.walk(s_):
+                if isinstance(a, ast.Assign):
+                    for t in a.targets:
+                        d = dotted(t)
+                        if d and d.startswith("self."):
+                            restored_here.add(".".join(d.split(".")[:2]))
+        for loc in sorted(written):
+            if loc not in later_reads:
+                continue
+            if loc in restored_here or loc in restored_after:
+                ctx.ok("Z5", "%s:%d" % (DSPM, node.lineno), "%s (left by the skipped collection stage, read later) is rebuilt %s"
+                       % (loc, "on the --read_assignments branch" if loc in restored_here else "unconditionally after the branch"))
+            else:
+                ctx.fail("Z5", node, ps._qualname, "if %s: ...  # %s not rebuilt" % (src(node.test), loc),
+                         "%s is filled by the collection stage (%s) and read by the later stages, but the --read_assignments branch skips that "
+                         "stage without rebuilding it from the saved files: the restarted run works with the freshly initialised value, its "
+                         "outputs differ from those of the run that saved the assignments" % (loc, src(written[loc])[:70]))
+    ctx.floor("Z5", "branches of process_sample that skip a stage under --read_assignments", n, 1)
+
+
+def _called_after(ps, fn, line, lin):
+    """fn (a method reached through self-calls) is entered from a call in process_sample below `line`"""
+    for c in ast.walk(ps):
+        if isinstance(c, ast.Call) and (call_name(c) or "").startswith("self.") and c.lineno > line:
+            name = call_name(c)[5:]
+            if name in lin.methods and (lin.methods[name] is fn or any(f_ is fn for _l, _k, _u, f_, _s in lin.run(name))):
+                return True
+    return False
+
+
 def run(prog, ctx):
     ctx.rule("Z1", "writer and reader of every codec pair reduce to the same wire-type tree, position by position, and "
                    "(where derivable) the same field name; the abridged reader consumes exactly ReadAssignment's tree; "
@@ -780,6 +846,9 @@ def run(prog, ctx):
     ctx.rule("Z4", "GeneInfo.deserialize: every derivation (obj.set_*() or the constructor) that consults a serialised field "
                    "(transitively through self-calls) runs after that field is restored / receives it as constructor argument")
     z4_geneinfo(prog, ctx)
+    ctx.rule("Z5", "restart from saved assignments: every DatasetProcessor location that the skipped collection stage writes and a later stage "
+                   "reads is assigned on the --read_assignments branch of process_sample or unconditionally right after it (self-calls inlined)")
+    z5_reuse(prog, ctx)
     ctx.floor("Z1", "object codec pairs", n_obj, 6)
     ctx.floor("Z2", "write_/read_ codec pairs", pairs, 9)
     ctx.floor("Z1", "ReadAssignment wire positions", len(trees["ReadAssignment"]), 20)
